@@ -18,7 +18,7 @@ code it is checked case by case (`json.dumps(allow_nan=False)` and reload) by `h
 "emitted dict = model `J`" only holds for dicts made of JSON types.
 
 What the unchanged code does **not** satisfy is proved as a negation with a concrete witness (each is a known finding
-replayed on the real code): `emit_raises_on_single_member_literal`, `pattern_not_exact`, `roundtrip_drops_none_default`.
+replayed on the real code): `pattern_not_exact`, `roundtrip_drops_none_default`.
 -/
 namespace C06
 open JsonSchema Py Gen.JsonSchemaTables
@@ -79,9 +79,9 @@ def SameInterface (pir : PIR) (ir : IR) : Prop :=
   | some pr, some r => pr.typ = some r.typ.render ∧ pr.doc = r.doc
   | _, _ => False
 
-/-! ### the emitter returns a schema … unless a `Literal` has a single member -/
+/-! ### the emitter returns a schema -/
 
-/-- `emit` returns exactly when no parameter is a `Literal` with fewer than two members, and then returns `emitT` -/
+/-- `emit` returns exactly when no parameter is the ill-formed `Literal[]`, and then returns `emitT` -/
 theorem emit_ok_iff (ir : IR) :
     (∃ j, emit ir = .ok j) ↔ ∀ np ∈ ir.params, np.2.typ.emitError = none := by
   have key : ∀ ps : List (Str × Param), emitError ps = none ↔ ∀ np ∈ ps, np.2.typ.emitError = none := by
@@ -108,18 +108,24 @@ theorem emit_eq (ir : IR) (j : J) (h : emit ir = .ok j) : j = emitT ir := by
   | none => rw [he] at h; cases h; rfl
   | some e => rw [he] at h; cases h
 
-/-- full statement of "a schema is emitted for every interface of the domain" -/
-def emits_full : Prop := ∀ ir : IR, ir.ok = true → NamesUnique ir → ∃ j, emit ir = .ok j
+/-- **clause "the JSON-schema emitted for an interface is serialisable JSON"** — full strength: a schema (a `J`, JSON by
+    construction) is emitted for *every* interface of the domain, one-member `Literal`s included. -/
+theorem emits (ir : IR) (hok : ir.ok = true) : ∃ j, emit ir = .ok j := by
+  apply (emit_ok_iff ir).mpr
+  intro np hnp
+  have h := IR.ok_params ir hok np hnp
+  unfold Typ.emitError
+  split
+  · rename_i hc; simp [Typ.ok, hc] at h
+  · rfl
 
-/-- **negation (known finding C06-single-member-literal):** `Literal['alpha']` is in the domain, the emitter raises on it
-    (`'str' object has no attribute 'elts'`). -/
-theorem emit_raises_on_single_member_literal : ¬ emits_full := by
-  intro h
-  have := (emit_ok_iff _).mp (h { name := some js!"F", doc := [], returns := none, params :=
-      [(js!"a", { typ := { optional := false, core := .lit [js!"alpha"] } })] }
-    (by decide) (by decide)) _ (List.mem_singleton.mpr rfl)
-  revert this
-  decide
+/-- a one-member `Literal` (the input on which the emitter raised before the `fix:` commit) is emitted -/
+example : emit { name := some js!"F", doc := [], returns := none, params :=
+      [(js!"a", { typ := { optional := false, core := .lit [js!"alpha"] } })] } =
+    .ok (.obj [(js!"$id", .str js!"https://offscale.io/F.schema.json"), (js!"$schema", .str schemaUrl),
+               (js!"description", .str []), (js!"type", .str js!"object"),
+               (js!"properties", .obj [(js!"a", .obj [(js!"type", .str js!"string"), (js!"pattern", .str js!"alpha")])]),
+               (js!"required", .arr [.str js!"a"])]) := rfl
 
 /-! ### required ⇔ not Optional -/
 
@@ -288,6 +294,16 @@ example : sample.ok = true ∧ NamesUnique sample ∧ emit sample = .ok (emitT s
     (∀ np ∈ sample.params, ∀ d, np.2.default = some d → d.isNone = false) := by
   refine ⟨by decide, by decide, rfl, ?_⟩
   decide
+
+/-- one-member `Literal`s (also `Optional[Literal['a']]`) are in the domain of `roundtrip` and read back as themselves -/
+def sampleOne : IR :=
+  { name := some js!"F", doc := [], returns := none,
+    params := [(js!"a", { typ := ⟨false, .lit [js!"alpha"]⟩, default := some (.str js!"alpha") }),
+               (js!"b", { typ := ⟨true, .lit [js!"x_1"]⟩ })] }
+example : sampleOne.ok = true ∧ NamesUnique sampleOne ∧ emit sampleOne = .ok (emitT sampleOne) ∧
+    (parse (emitT sampleOne)).toOption.map (fun p => p.params.map (fun np => (np.1, np.2.typ))) =
+      some [(js!"a", some js!"Literal['alpha']"), (js!"b", some js!"Optional[Literal['x_1']]")] := by
+  refine ⟨by decide, by decide, rfl, by decide⟩
 
 /-- **negation (known finding C06-none-default-dropped):** `Optional[int]` with default `None`: the default is deleted by
     the emitter and absent after the round trip. -/
